@@ -100,6 +100,20 @@ fn replay(case: &Value) -> Vec<Violation> {
     let x = jd(&case["x"]);
     let e = ENTRIES.into_iter().find(|e| *e == entry).unwrap();
     if let Some(a) = case.get("after") {
+        if let Some(prev) = a.get("x") {
+            // history over another operand: measure / round it first
+            let pb = bd(&jd(prev));
+            let _ = guard(|| (pb.digits(), call(e, &pb, p, m)));
+            return check(e, &bd(&x), &x, p, m)
+                .map(|mut v| {
+                    if let Some(o) = v.case.as_object_mut() {
+                        o.insert("after".into(), a.clone());
+                    }
+                    v
+                })
+                .into_iter()
+                .collect();
+        }
         let first = (a["p"].as_u64().unwrap(), Mode::from_name(a["mode"].as_str().unwrap()).unwrap());
         return check_after(e, &bd(&x), &x, first, (p, m)).into_iter().collect();
     }
@@ -381,6 +395,37 @@ fn main() {
                 t.transitions += 2;
                 if let Some(v) = check_after(e, &xb, x, (p + 1, m), (p, m)) {
                     run.report(v);
+                }
+            }
+        }
+        t
+    });
+    // S11: call histories of length two over pairs of OPERANDS chosen against weak cache keys (two single-bit changes
+    // in adjacent words at every relative rotation; a change in a middle word only; neighbours across a power of ten):
+    // digits() / rounding of A, then rounding of B through every entry point
+    let wk = weak_key_pairs();
+    run.bound("S11_weak_key_pairs", wk.len());
+    run.par("S11 operand-pair histories over weak-key pairs", (wk.len() + 15) / 16, |blk| {
+        let mut t = Tally::default();
+        for (a, b) in wk[blk * 16..((blk + 1) * 16).min(wk.len())].iter() {
+            let (xa, xb) = (Dec { n: a.clone(), s: 0 }, Dec { n: b.clone(), s: 0 });
+            let (pa, pb) = (bd(&xa), bd(&xb));
+            let d = ndigits(b);
+            t.states += 1;
+            for e in ENTRIES {
+                let modes: Vec<Mode> = if e == "with_prec" { vec![Mode::HalfUp] } else { vec![Mode::HalfUp, Mode::HalfEven, Mode::Down] };
+                for p in [1u64, d / 2, d - 1] {
+                    for &m in modes.iter() {
+                        t.transitions += 2;
+                        t.nontrivial += 1;
+                        let _ = guard(|| (pa.digits(), call(e, &pa, p, m)));
+                        if let Some(mut v) = check(e, &pb, &xb, p, m) {
+                            if let Some(o) = v.case.as_object_mut() {
+                                o.insert("after".into(), json!({"x": xa.show()}));
+                            }
+                            run.report(v.attr("history", true));
+                        }
+                    }
                 }
             }
         }
